@@ -27,12 +27,9 @@ import (
 
 	"github.com/go-chi/chi/v5"
 	"github.com/twitchtv/twirp"
-	"github.com/stretchr/testify/mock"
 	"go.uber.org/zap"
 
 	chordImpl "go.miragespace.co/specter/chord"
-	"go.miragespace.co/specter/kv/memory"
-	"go.miragespace.co/specter/rtt"
 	"go.miragespace.co/specter/spec/chord"
 	"go.miragespace.co/specter/spec/mocks"
 	"go.miragespace.co/specter/spec/protocol"
@@ -404,7 +401,7 @@ func boundaryLens() []int {
 
 func main() {
 	r := hlib.Start()
-	r.Rule = "exhaustive: every registry error x every RemoteNode RPC method through the real chord.Server + twirp server/client + ErrorMapper; plus per method: every registry error and the deadline error inside text-preserving wrappers (fmt.Errorf %w / errors.Join / wrapper type, nested 1..3 deep), %w-wrapped registry errors with a changed text, context.DeadlineExceeded (bare and wrapped), context.Canceled, fresh errors with a registry message, random arbitrary errors (short, near-registry, long); the KV / lease methods with keys / prefixes / lease names of length 0, 1, 2, every power of two up to 64 KiB and its neighbours, and random lengths (ASCII and escaped/multi-byte UTF-8) for every registry error, the deadline error and samples of the other kinds; non-trivial = distinct (method, origin, caller view)"
+	r.Rule = "exhaustive: every registry error x every RemoteNode RPC method through the real chord.Server + twirp server/client + ErrorMapper; plus per method: every registry error and the deadline error inside text-preserving wrappers (fmt.Errorf %w / errors.Join / wrapper type, nested 1..3 deep), %w-wrapped registry errors with a changed text, context.DeadlineExceeded (bare and wrapped), context.Canceled, fresh errors with a registry message, random arbitrary errors (short, near-registry, long); the KV / lease methods with keys / prefixes / lease names of length 0, 1, 2, every power of two up to 64 KiB and its neighbours, and random lengths (ASCII and escaped/multi-byte UTF-8) for every registry error, the deadline error and samples of the other kinds; non-trivial = distinct (method, origin, caller view). LIVE: real chord.LocalNode instances (active single-node ring over the in-memory KV provider / never started / left) behind the same handlers; each request is put to the node directly (origin) and through the RPC path in the same state: Acquire / Renew with 16 boundary ttls (0, 1 ns, 1 ms, 500 ms, 1 s - 1 ns, negative, min int64, 1 s, 1 s + 1 ns, 1.5 s, 2 s - 1 ns, 2 s, 1 m, 1 h) and random ttls x lease free / held / held under another token / time up, Release free / mine / other token, Append of an existing child, reads; every method x not-started / left node; lease names of boundary and random lengths"
 	rng := hlib.NewRng(r.Seed)
 	g := setup()
 	names := make([]string, 0)
@@ -450,8 +447,12 @@ func main() {
 	}
 	// the short key the repository's own tests use
 	one := func(m method, kind, arg string) { onek(m, kind, arg, "a1") }
+	L := setupLive(g)
 	if r.Replay != "" {
 		for _, t := range r.ReplayLines() {
+			if t[0] == "live" {
+				L.replay(r, t)
+			}
 			if t[0] != "rpc" {
 				continue
 			}
@@ -531,6 +532,8 @@ func main() {
 			onek(m, kind, arg, randKey())
 		}
 	}
+	// the REAL local nodes behind the handlers: requests that make the node itself produce its errors
+	L.all(r, rng, boundaryKey, randKey)
 	rounds := 1
 	if r.Thorough() {
 		rounds = 8
